@@ -53,7 +53,11 @@ def compile_pass(P, R):
         # simpler: the increment post-dominates the slot store within the loop body
         nxt = [t for t in H.stores() if t.ev['k'] == 'store' and is_var(t.ev.get('lhs')) and is_field(t.ev.get('rhs') or {}, 'next')]
         ok = loop_ok
-        if nxt:
+        # `&vec[used++]`: the step is part of the slot expression itself
+        fused = len(incs) == 1 and any(x.get('k') == 'un' and x.get('op') == '++' and x.get('postfix') and x.get('ev') == incs[0].ev.get('id') for x in walk(vecs[0].ev['rhs']))
+        if fused:
+            ok = True
+        elif nxt:
             pp = H.path_avoiding(vecs[0], lambda t: t in incs, target=nxt[0].bid)
             ok = ok and pp is None
         R.ob('C11.MPT.1', ok, incs[0] if incs else H, '`used` is incremented exactly once for every rule stored, before the next node is taken', key='append-inc')
@@ -128,6 +132,12 @@ def matcher(P, R):
             acct_alias.add(tgt) if (on_path(val, 'account', core.REQ_REC) or (val.get('k') == 'callref' and any(on_path(a, 'account', core.REQ_REC) for a in val['args']))
                                    or (is_var(val) and val.get('arr') is not None)) else None
 
+    # local arrays that receive (a prefix of) the client's account
+    for s in m.calls():
+        if s.ev.get('callee') in bnd.SINKS and s.ev['args'] and is_var(root_var(s.ev['args'][0])) and root_var(s.ev['args'][0]).get('sc') == 'local' \
+                and any(on_path(x, 'account', core.REQ_REC) for a in s.ev['args'][1:] for x in walk(a)):
+            acct_alias.add(root_var(s.ev['args'][0])['name'])
+
     def classify(r):
         l, op, rr = r
         out = []
@@ -183,7 +193,18 @@ def matcher(P, R):
             and any(on_path(x, 'account', core.REQ_REC) for a in s.ev['args'][1:] for x in walk(a))]
     for s in cuts:
         idi, why = bnd.classify_call(P, m, s)
-        R.ob('C11.FMT.1', bool(idi) and idi.startswith('4 '), s, 'the account name before the stamp is copied as the exact prefix up to the colon (%s)' % (idi or why), key='account-cut')
+        n_ex = m.expand_local(s.ev['args'][2], s) if len(s.ev['args']) > 2 else {}
+        prefix = False
+        if isinstance(n_ex, dict) and n_ex.get('k') == 'bin' and n_ex.get('op') == '-' and is_var(n_ex.get('l')) and on_path(n_ex.get('r'), 'account', core.REQ_REC):
+            defs = [d for d in m.local_defs(n_ex['l']['name']) if (d.ev.get('rhs') if d.ev['k'] == 'store' else d.ev.get('init')) is not None]
+            prefix = bool(defs) and all(((d.ev.get('rhs') or d.ev.get('init') or {}).get('callee') == 'strchr' and const_of((d.ev.get('rhs') or d.ev.get('init'))['args'][1]) == ord(':')
+                                         and on_path((d.ev.get('rhs') or d.ev.get('init'))['args'][0], 'account', core.REQ_REC)) or const_of(d.ev.get('rhs') or d.ev.get('init') or {}) == 0
+                                        or (is_var(d.ev.get('rhs') or {}) and (d.ev['rhs'].get('arr') is not None)) for d in defs)
+        if isinstance(n_ex, dict) and n_ex.get('k') == 'bin' and n_ex.get('op') == '-' and isinstance(n_ex.get('l'), dict) and n_ex['l'].get('k') == 'callref' \
+                and n_ex['l'].get('callee') == 'strchr' and const_of(n_ex['l']['args'][1]) == ord(':') and on_path(n_ex['l']['args'][0], 'account', core.REQ_REC) \
+                and on_path(n_ex.get('r'), 'account', core.REQ_REC):
+            prefix = True
+        R.ob('C11.FMT.1', bool(idi) and (idi.startswith('4 ') or prefix), s, 'the account name before the stamp is copied as the exact prefix up to the colon (%s)' % (idi or why), key='account-cut')
         nul = [t for t in m.stores() if t.ev['k'] == 'store' and t.ev['lhs'].get('k') == 'idx' and same(t.ev['lhs']['base'], s.ev['args'][0]) and const_of(t.ev.get('rhs')) == 0
                and same(t.ev['lhs']['index'], s.ev['args'][2])]
         R.ob('C11.FMT.1', bool(nul) and m.path_avoiding(s, lambda t: t in nul) is None, s, 'the copied account name is terminated right after the prefix', key='account-cut-nul')
@@ -198,7 +219,13 @@ def matcher(P, R):
                     and g[1] == '==' and const_of(g[2]) == ord('~') for g in gs)
         R.ob('C11.GRD.3', flag and tilde, s, 'the user name is upgraded only under the rule\'s trust_username flag and an untrusted (~) ident', key='trust-guard')
         a1 = s.ev['args'][1]
-        R.ob('C11.GRD.3', on_path(a1, 'cli_username', core.REQ_REC), s, 'the upgrade uses the client-supplied user name (%s)' % sx(a1), key='trust-value')
+        okv = on_path(a1, 'cli_username', core.REQ_REC)
+        if not okv and is_var(a1):
+            # a cursor set to the client-supplied name and stepped over its marker
+            defs = m.local_defs(a1['name'])
+            okv = bool(defs) and all((d.ev.get('op') in ('++',) and d.ev['k'] == 'store') or on_path(d.ev.get('rhs') or d.ev.get('init') or {}, 'cli_username', core.REQ_REC) for d in defs) \
+                and any(on_path(d.ev.get('rhs') or d.ev.get('init') or {}, 'cli_username', core.REQ_REC) for d in defs)
+        R.ob('C11.GRD.3', okv, s, 'the upgrade uses the client-supplied user name (%s)' % sx(a1), key='trust-value')
         # and happens only on the matching path: same criterion states as the class store
         sts = [dict(st) for st in before.get(s.key, set())]
         R.ob('C11.GRD.3', bool(sts) and all(all(d.get(f) in ('absent', 'matched') for f in CRITERIA) for d in sts), s, 'the upgrade happens only for a rule all of whose criteria hold', key='trust-after-match')
